@@ -640,6 +640,9 @@ func (g *guardEngine) discharge(s guardSite) string {
 		if m := g.guardedMin(s, x); m >= s.needLen {
 			return fmt.Sprintf("dominating guard establishes len >= %d", m)
 		}
+		if s.needLen == 1 && g.ensuredNonEmpty(s, x) {
+			return "ensure-non-empty idiom: a dominating `if len(x.F) == 0 { x.F = <non-empty> }` precedes the site"
+		}
 		return ""
 	}
 	// variable index
@@ -831,4 +834,79 @@ func describeIdx(v ssa.Value) string {
 		return "φ" + p.Comment
 	}
 	return describeValue(v)
+}
+
+// ensuredNonEmpty recognises the idiom
+//
+//	if len(o.F) == 0 { o.F = <value with at least one element> }
+//	... o.F[0] ...
+//
+// The test must be exactly the emptiness of the field (no further conjunct), its taken
+// branch must store a non-empty value into the same field of the same object and fall
+// through to the join, and the join must dominate the site.
+func (g *guardEngine) ensuredNonEmpty(s guardSite, x ssa.Value) bool {
+	ld, ok := x.(*ssa.UnOp)
+	if !ok || ld.Op != token.MUL {
+		return false
+	}
+	fa, ok := ld.X.(*ssa.FieldAddr)
+	if !ok {
+		return false
+	}
+	for d := s.ins.Block().Idom(); d != nil; d = d.Idom() {
+		iff, ok := d.Instrs[len(d.Instrs)-1].(*ssa.If)
+		if !ok {
+			continue
+		}
+		cmp, ok := iff.Cond.(*ssa.BinOp)
+		if !ok || cmp.Op != token.EQL {
+			continue
+		}
+		lx := lenArg(cmp.X)
+		if k, ok := constInt(cmp.Y); lx == nil || !ok || k != 0 {
+			continue
+		}
+		ll, ok := lx.(*ssa.UnOp)
+		if !ok || ll.Op != token.MUL {
+			continue
+		}
+		fa2, ok := ll.X.(*ssa.FieldAddr)
+		if !ok || fa2.Field != fa.Field || !sameNode(fa2.X, fa.X) {
+			continue
+		}
+		then, join := d.Succs[0], d.Succs[1]
+		if len(then.Preds) != 1 || !join.Dominates(s.ins.Block()) {
+			continue
+		}
+		// the then-region stores a non-empty value into the field and every path from it reaches the join
+		stored := false
+		for _, ins := range then.Instrs {
+			if st, ok := ins.(*ssa.Store); ok {
+				if fa3, ok := st.Addr.(*ssa.FieldAddr); ok && fa3.Field == fa.Field && sameNode(fa3.X, fa.X) && g.minLenByConstruction(st.Val, 0) >= 1 {
+					stored = true
+				}
+			}
+		}
+		if !stored {
+			continue
+		}
+		// no later store to the field between the join and the site that could empty it again
+		clean := true
+		for _, b := range s.fn.Blocks {
+			if b == then || !join.Dominates(b) || !(b == s.ins.Block() || blockReachesPlain(b, s.ins.Block())) {
+				continue
+			}
+			for _, ins := range b.Instrs {
+				if st, ok := ins.(*ssa.Store); ok {
+					if fa3, ok := st.Addr.(*ssa.FieldAddr); ok && fa3.Field == fa.Field && sameNode(fa3.X, fa.X) && g.minLenByConstruction(st.Val, 0) < 1 {
+						clean = false
+					}
+				}
+			}
+		}
+		if clean {
+			return true
+		}
+	}
+	return false
 }
